@@ -3,11 +3,14 @@
 package mtproto
 
 import (
+	"io"
 	"math/big"
 
 	"github.com/xelaj/mtproto/internal/encoding/tl"
+	"github.com/xelaj/mtproto/internal/mode"
 	"github.com/xelaj/mtproto/internal/mtproto/messages"
 	"github.com/xelaj/mtproto/internal/mtproto/objects"
+	"github.com/xelaj/mtproto/internal/transport"
 	"github.com/xelaj/mtproto/internal/verifrt"
 )
 
@@ -75,6 +78,61 @@ func H_C16_after_key_exchange(kind int) {
 		n.deliver(body, seq)
 		verifrt.Quiesce()
 		n.probe("after-exchange-twice-" + name + "-")
+	})
+	if crashed {
+		verifrt.Note("crash: " + verifrt.PanicMsg())
+	}
+	verifrt.Assert(!crashed, "process-survives")
+}
+
+// H_C16_reconnect_outstanding: a request is outstanding when the server closes the connection.  The client
+// reconnects (same key); then, depending on the variant, the server closes the new connection as well (1, 3) and /
+// or delivers the answer to the old request on the newest connection (2, 3) - a server re-delivers answers that were
+// not acknowledged.  Whatever the client does with requests that were in flight at the close, the process survives,
+// the receive loop runs on the newest connection and a later request completes.
+func H_C16_reconnect_outstanding(variant int) {
+	verifrt.SetClock(1600000000, 0, 1000)
+	n := newNetEnv(5)
+	n.m.Warnings = make(chan error)
+	go func() {
+		for range n.m.Warnings {
+		}
+	}()
+	var conns []*fakeTransport
+	verifrt.Hook("github.com/xelaj/mtproto/internal/transport.NewTransport", func(m messages.MessageInformator, conn transport.ConnConfig, v mode.Variant) (transport.Transport, error) {
+		t := &fakeTransport{m: n.m, out: make(chan sentMsg, 256), in: make(chan srvMsg, 64)}
+		conns = append(conns, t)
+		return t, nil
+	})
+	if !verifrt.Symbolic() {
+		verifrt.Assert(true, "engine-only-scenario")
+		return
+	}
+	crashed := verifrt.Catch(func() {
+		n.start()
+		go func() { _, _ = n.m.MakeRequest(&objects.PingParams{PingID: 777}) }()
+		req := n.nextRequest(nil)
+		n.t.in <- srvMsg{err: io.EOF}
+		verifrt.Quiesce()
+		verifrt.Assert(len(conns) == 1, "reconnected-after-first-close")
+		if len(conns) != 1 {
+			return
+		}
+		n.t = conns[0]
+		if variant&1 != 0 {
+			n.t.in <- srvMsg{err: io.EOF}
+			verifrt.Quiesce()
+			verifrt.Assert(len(conns) == 2, "reconnected-after-second-close")
+			if len(conns) != 2 {
+				return
+			}
+			n.t = conns[1]
+		}
+		if variant&2 != 0 {
+			n.deliver(rpcResult(req.msgID, mustMarshal(&objects.Pong{MsgID: req.msgID, PingID: 777})), 1)
+			verifrt.Quiesce()
+		}
+		n.probe("after-close-with-request-outstanding-")
 	})
 	if crashed {
 		verifrt.Note("crash: " + verifrt.PanicMsg())
